@@ -80,6 +80,15 @@ type PkgContracts struct {
 	Invariants []*Clause // package-level invariants
 	Pure      map[string]bool // FullName keys
 	Order     []string
+	Guards    []*Guard
+}
+
+// Guard: `guarded(Cnn) lock : v1, v2` — package variables that may be touched only while the package-level lock is held.
+type Guard struct {
+	Lock     string
+	Vars     []string
+	Props    string
+	Enforced bool // in force in this check (its ghost state exists in every check)
 }
 
 const modInternal = "github.com/tucats/ego/internal/"
@@ -117,6 +126,7 @@ var (
 	reFuncHdr   = regexp.MustCompile(`^(trusted\s+)?func\s+(\S+?)(\(([^)]*)\))?(\s*(returns\s*)?\(([^)]*)\))?\s*$`)
 	reGhostFunc = regexp.MustCompile(`^(ghost|spec)\s+func\s+(\w+)\s*\((.*?)\)\s*([^={]+?)\s*(=\s*(.*))?$`)
 	reGhostVar  = regexp.MustCompile(`^ghost\s+var\s+(\w+)\s+([^=]+?)(\s*=\s*(.*))?$`)
+	reClauseProps = regexp.MustCompile(`^\((C\d+(?:\s+C\d+)*)\)\s*`)
 	reLabel     = regexp.MustCompile(`^\[([\w\-.#]+)\]\s*`)
 	reLoop      = regexp.MustCompile(`^loop\s+(\d+)\s+invariant\s*`)
 	reAtCall    = regexp.MustCompile(`^(at|after)\s+call\s+(\S+)\s+#(\d+|\*)\s+(assert|ghost|assume)\s*`)
@@ -126,7 +136,7 @@ var (
 	reAtLoop    = regexp.MustCompile(`^at\s+loop\s+(\d+)\s+(body|exit|init)\s+(assert|ghost|assume)\s*`)
 )
 
-var clauseKeywords = []string{"requires", "ensures", "assigns", "loop ", "at ", "after ", "safe", "opt ", "func ", "trusted ", "ghost ", "spec ", "axiom", "pure ", "mode ", "props ", "invariant", "establishes ", "noinv"}
+var clauseKeywords = []string{"guarded(", "guarded ", "requires", "ensures", "assigns", "loop ", "at ", "after ", "safe", "opt ", "func ", "trusted ", "ghost ", "spec ", "axiom", "pure ", "mode ", "props ", "invariant", "establishes ", "noinv"}
 
 func startsWithKeyword(s string) bool {
 	for _, k := range clauseKeywords {
@@ -232,6 +242,11 @@ func ParseContractFile(path, pkgPath string) (*PkgContracts, error) {
 		fail := func(e error) error { return fmt.Errorf("%s:%d: %v", path, rl.line, e) }
 		mkClause := func(kind, rest string) (*Clause, error) {
 			c := &Clause{Kind: kind, File: base, Line: rl.line}
+			// requires(C28) / ensures(C28 C29): the clause belongs to the checks of the listed properties only
+			if m := reClauseProps.FindStringSubmatch(rest); m != nil {
+				c.Props = m[1]
+				rest = rest[len(m[0]):]
+			}
 			if m := reLabel.FindStringSubmatch(rest); m != nil {
 				c.Label = m[1]
 				rest = rest[len(m[0]):]
@@ -307,6 +322,21 @@ func ParseContractFile(path, pkgPath string) (*PkgContracts, error) {
 			}
 			c.Props = props
 			pc.Invariants = append(pc.Invariants, c)
+			cur = nil
+		case strings.HasPrefix(t, "guarded"):
+			rest := strings.TrimSpace(strings.TrimPrefix(t, "guarded"))
+			props := ""
+			if strings.HasPrefix(rest, "(") {
+				if j := strings.Index(rest, ")"); j > 0 {
+					props = strings.TrimSpace(rest[1:j])
+					rest = strings.TrimSpace(rest[j+1:])
+				}
+			}
+			lv := strings.SplitN(rest, ":", 2)
+			if len(lv) != 2 {
+				return nil, fail(fmt.Errorf("bad guarded clause: %s", t))
+			}
+			pc.Guards = append(pc.Guards, &Guard{Lock: strings.TrimSpace(lv[0]), Vars: splitNames(lv[1]), Props: props})
 			cur = nil
 		case strings.HasPrefix(t, "pure "):
 			for _, nm := range strings.Split(strings.TrimPrefix(t, "pure "), ",") {
